@@ -80,6 +80,11 @@ fn view_key(kind: ElementKind, key: &str) -> String {
         (ElementKind::Assertion, "by") => "asserted_by".to_string(),
         (ElementKind::Assertion, "status") => "lifecycle.status".to_string(),
         (ElementKind::Evidence, "status") => "lifecycle.status".to_string(),
+        // The rendered view carries the engine state under `_system`; it has no
+        // top-level `state`, so reading "state" there yields null and a matcher
+        // that names a state can match nothing wherever it is checked against
+        // the view (every past coordinate).
+        (_, "state") => "_system.state".to_string(),
         _ => key.to_string(),
     }
 }
